@@ -322,8 +322,8 @@ func createShimChannel(ctx context.Context, host, shimPath string, rewriteHost b
 			metricHandler.WriteResponseCodeMetric(statusCode)
 			return
 		}
-		connections.Store(sessionID, conn)
-		log.Printf("Websocket connection to the server %q established for session: %v\n", targetURL.String(), sessionID)
+		// The protocol version must be set before the connection is published,
+		// as other requests can use the connection as soon as it is stored.
 		vh := r.Header.Get("X-Websocket-Shim-Version")
 		if vh != "" {
 			v, err := strconv.ParseInt(vh, 10, 64)
@@ -331,6 +331,8 @@ func createShimChannel(ctx context.Context, host, shimPath string, rewriteHost b
 				conn.protocolVersion = int(v)
 			}
 		}
+		connections.Store(sessionID, conn)
+		log.Printf("Websocket connection to the server %q established for session: %v\n", targetURL.String(), sessionID)
 		resp := &sessionMessage{
 			ID:      sessionID,
 			Message: targetURL.String(),
